@@ -381,3 +381,136 @@ Example ex_fnv_empty : fnv_hash [] = 36342606557053518.  (* (2166136261 ^ 0xff) 
 Proof. vm_compute. reflexivity. Qed.
 Example ex_fnv_hello : fnv_hash ["h"; "e"; "l"; "l"; "o"]%byte = 12167414379877419068.
 Proof. vm_compute. reflexivity. Qed.
+
+(* ------------------------------------------------------------------ *)
+(* round_ratio always returns a valid double                            *)
+Lemma lift_le : forall x y t K, 0 <= K -> 0 <= t + K ->
+  (x * 2 ^ Z.max t 0 <= y * 2 ^ Z.max (- t) 0 <-> x * 2 ^ (t + K) <= y * 2 ^ K).
+Proof.
+  intros x y t K HK HtK.
+  set (c := K - Z.max (- t) 0). assert (Hc : 0 <= c) by lia.
+  replace (t + K) with (Z.max t 0 + c) by lia.
+  replace (2 ^ K) with (2 ^ (Z.max (- t) 0 + c)) by (f_equal; lia).
+  rewrite !Z.pow_add_r by lia.
+  assert (P : 0 < 2 ^ c) by (apply pow2_pos; lia).
+  rewrite !Z.mul_assoc. apply Z.mul_le_mono_pos_r. exact P.
+Qed.
+
+Lemma lift_lt : forall x y t K, 0 <= K -> 0 <= t + K ->
+  (y * 2 ^ Z.max (- t) 0 < x * 2 ^ Z.max t 0 <-> y * 2 ^ K < x * 2 ^ (t + K)).
+Proof.
+  intros x y t K HK HtK. pose proof (lift_le x y t K HK HtK). lia.
+Qed.
+
+Lemma ratio_log2_spec : forall num den K, 0 < num -> 0 < den ->
+  0 <= K -> 0 <= ratio_log2 num den + K ->
+  den * 2 ^ (ratio_log2 num den + K) <= num * 2 ^ K /\
+  num * 2 ^ K < den * 2 ^ (ratio_log2 num den + 1 + K).
+Proof.
+  intros num den K Hn Hd HK.
+  pose proof (log2_bounds num Hn) as [Hn1 Hn2].
+  pose proof (log2_bounds den Hd) as [Hd1 Hd2].
+  pose proof (Z.log2_nonneg num) as Ha0.
+  pose proof (Z.log2_nonneg den) as Hb0.
+  unfold ratio_log2.
+  set (a := Z.log2 num) in *. set (b := Z.log2 den) in *. set (l := a - b).
+  assert (PK : 0 < 2 ^ K) by (apply pow2_pos; lia).
+  destruct (den * 2 ^ Z.max l 0 <=? num * 2 ^ Z.max (- l) 0) eqn:T; intros HL.
+  - apply Z.leb_le in T. apply (lift_le den num l K HK HL) in T. split; [exact T|].
+    assert (num * 2 ^ K < 2 ^ (a + 1) * 2 ^ K) by (apply Z.mul_lt_mono_pos_r; lia).
+    assert (2 ^ b * 2 ^ (l + 1 + K) <= den * 2 ^ (l + 1 + K))
+      by (apply Z.mul_le_mono_nonneg_r; [apply Z.lt_le_incl, pow2_pos|]; lia).
+    rewrite <- Z.pow_add_r in * by lia. replace (b + (l + 1 + K)) with (a + 1 + K) in * by lia. lia.
+  - apply Z.leb_gt in T. apply (lift_lt den num l K HK ltac:(lia)) in T.
+    replace (l - 1 + 1 + K) with (l + K) by lia. split; [|exact T].
+    assert (den * 2 ^ (l - 1 + K) < 2 ^ (b + 1) * 2 ^ (l - 1 + K))
+      by (apply Z.mul_lt_mono_pos_r; [apply pow2_pos|]; lia).
+    assert (2 ^ a * 2 ^ K <= num * 2 ^ K) by (apply Z.mul_le_mono_nonneg_r; lia).
+    rewrite <- Z.pow_add_r in * by lia. replace (b + 1 + (l - 1 + K)) with (a + K) in * by lia. lia.
+Qed.
+
+Theorem round_ratio_valid : forall neg num den, 0 < den ->
+  f64_valid (round_ratio neg num den) = true.
+Proof.
+  intros neg num den Hden. unfold round_ratio.
+  destruct (num <=? 0) eqn:E0; [reflexivity|]. apply Z.leb_gt in E0.
+  set (L := ratio_log2 num den).
+  set (e := Z.max emin_d (L - 52)).
+  set (K := Z.abs L + 1200).
+  assert (HK : 0 <= K) by lia. assert (HLK : 0 <= L + K) by lia.
+  assert (HeK : 0 <= e + K) by (unfold e, emin_d; lia).
+  destruct (ratio_log2_spec num den K E0 Hden HK HLK) as [S1 S2]. fold L in S1, S2.
+  set (n' := num * 2 ^ Z.max (- e) 0). set (d' := den * 2 ^ Z.max e 0).
+  assert (Hd' : 0 < d') by (unfold d'; apply Z.mul_pos_pos; [lia|apply pow2_pos; lia]).
+  assert (PeK : 0 < 2 ^ (e + K)) by (apply pow2_pos; lia).
+  (* n' < 2^53 d' *)
+  assert (F1 : n' < two53 * d').
+  { unfold n', d'. rewrite Z.mul_assoc.
+    apply (lift_lt (two53 * den) num e K HK HeK).
+    eapply Z.lt_le_trans; [exact S2|].
+    rewrite two53_pow. replace (2 ^ 53 * den * 2 ^ (e + K)) with (den * (2 ^ 53 * 2 ^ (e + K))) by ring.
+    rewrite <- Z.pow_add_r by lia.
+    apply Z.mul_le_mono_nonneg_l; [lia|]. apply Z.pow_le_mono_r; unfold e; lia. }
+  assert (F2 : e = L - 52 -> two52 * d' <= n').
+  { intros He. unfold n', d'. rewrite Z.mul_assoc.
+    apply (lift_le (two52 * den) num e K HK HeK).
+    rewrite two52_pow. replace (2 ^ 52 * den * 2 ^ (e + K)) with (den * (2 ^ 52 * 2 ^ (e + K))) by ring.
+    rewrite <- Z.pow_add_r by lia. replace (52 + (e + K)) with (L + K) by lia. exact S1. }
+  assert (F3 : L - 52 < emin_d -> n' < two52 * d').
+  { intros He. unfold n', d'. rewrite Z.mul_assoc.
+    apply (lift_lt (two52 * den) num e K HK HeK).
+    eapply Z.lt_le_trans; [exact S2|].
+    rewrite two52_pow. replace (2 ^ 52 * den * 2 ^ (e + K)) with (den * (2 ^ 52 * 2 ^ (e + K))) by ring.
+    rewrite <- Z.pow_add_r by lia.
+    apply Z.mul_le_mono_nonneg_l; [lia|]. apply Z.pow_le_mono_r; unfold e; lia. }
+  pose proof (Z_div_mod n' d' ltac:(lia)) as Hdm.
+  destruct (Z.div_eucl n' d') as [q r]. destruct Hdm as [Hdm Hr].
+  assert (Hn'0 : 0 < n') by (unfold n'; apply Z.mul_pos_pos; [lia|apply pow2_pos; lia]).
+  assert (Hq0 : 0 <= q) by nia.
+  assert (Hq53 : q < two53) by nia.
+  assert (Hq52 : e = L - 52 -> two52 <= q) by (intros He; specialize (F2 He); nia).
+  assert (Hqs : L - 52 < emin_d -> q < two52) by (intros He; specialize (F3 He); nia).
+  set (q1 := match 2 * r ?= d' with
+             | Eq => if Z.even q then q else q + 1
+             | Lt => q
+             | Gt => q + 1
+             end).
+  assert (Hq1 : q1 = q \/ q1 = q + 1).
+  { unfold q1. destruct (2 * r ?= d'); [destruct (Z.even q)| |]; auto. }
+  clearbody q1.
+  assert (Hcase : (e = L - 52 /\ emin_d <= e) \/ (e = emin_d /\ L - 52 < emin_d)) by (unfold e; lia).
+  destruct (q1 =? two53) eqn:E53.
+  - (* carried into the next binade *)
+    apply Z.eqb_eq in E53. change two52 with (Zpos 4503599627370496).
+    unfold emax_d. destruct (e + 1 <=? 971) eqn:E2; [|reflexivity].
+    apply Z.leb_le in E2. apply finite_ok_valid. left. unfold two52, two53, emin_d in *.
+    destruct Hcase as [[? ?]|[? ?]]; lia.
+  - apply Z.eqb_neq in E53.
+    destruct q1 as [|m|m]; [reflexivity| |reflexivity].
+    unfold emax_d. destruct (e <=? 971) eqn:E2; [|reflexivity].
+    apply Z.leb_le in E2. apply finite_ok_valid. unfold finite_ok.
+    destruct Hcase as [[He1 He2]|[He1 He2]].
+    + left. specialize (Hq52 He1). unfold two52, two53, emin_d in *. lia.
+    + specialize (Hqs He2). unfold two52, two53, emin_d in *.
+      destruct (Z.eq_dec (Zpos m) 4503599627370496); [left|right]; lia.
+Qed.
+Print Assumptions round_ratio_valid.
+
+(* ------------------------------------------------------------------ *)
+(* every 64-bit pattern decodes to a valid double                      *)
+
+Theorem f64_of_bits_valid : forall b, f64_valid (f64_of_bits b) = true.
+Proof.
+  intros b. unfold f64_of_bits.
+  pose proof (Z.mod_pos_bound (b mod two64) two52 ltac:(reflexivity)) as Hm.
+  pose proof (Z.mod_pos_bound (b mod two64 / two52) 2048 ltac:(reflexivity)) as He.
+  set (mant := b mod two64 mod two52) in *. set (ex := (b mod two64 / two52) mod 2048) in *.
+  destruct (ex =? 0) eqn:E0.
+  - destruct mant as [|m|m] eqn:Em; try reflexivity.
+    apply finite_ok_valid. right. lia.
+  - apply Z.eqb_neq in E0. destruct (ex =? 2047) eqn:E1.
+    + destruct (mant =? 0); reflexivity.
+    + apply Z.eqb_neq in E1. destruct (mant + two52) as [|m|m] eqn:Em; try reflexivity.
+      apply finite_ok_valid. left. unfold two52, two53 in *. lia.
+Qed.
+Print Assumptions f64_of_bits_valid.
